@@ -47,7 +47,7 @@ YOUR TASK: produce {n_changes} independent, realistic source changes to the yq c
   1. the code still compiles, and the existing test suite STILL PASSES unchanged (run it and confirm; do not edit any *_test.go or golden files);
   2. the property above is BROKEN by the change;
   3. the breakage needs something specific to manifest - e.g. an unusual input shape, a multi-step sequence of operations, a particular fault/crash point or interleaving, a specific flag combination, or two cooperating code sites that each look fine alone - rather than something every ordinary use would expose at once. Prefer subtle over blatant: a change that breaks only some region of the input space is ideal. The changes should be in different code sites / mechanisms.{extra}
-  4. you provide a demonstration that FAILS with the change applied and PASSES without it: either a Go test file (put a copy in {out}; it may be dropped into pkg/yqlib or cmd of the worktree to run) or a small shell script that builds the yq binary from a given tree (usage: demo.sh <repo-dir>) and exits non-zero when the property is violated. Verify both directions yourself (with the change: fails; `git stash`/without: passes).
+  4. you provide a demonstration that FAILS with the change applied and PASSES without it: either a Go test file (put a copy in {out}; it may be dropped into pkg/yqlib or cmd of the worktree to run) or a small shell script that builds the yq binary from a given tree (usage: demo.sh <repo-dir>) and exits non-zero when the property is violated. Verify both directions yourself (with the change: fails; without it - save the diff to a file, `git checkout -- .`, later `git apply` it again; do NOT use `git stash`, the stash is shared by all worktrees of the repository - passes).
 
 Deliverables, in {out}/:
   {files}   - `git diff` output against the worktree's HEAD (source changes only, no test files), each applying cleanly with `git apply` to a clean checkout
